@@ -888,6 +888,11 @@ def main(ctx):
         cases += cases_meem(rng, impl, 160 * n)
         for i in range(0, len(cases), 400):
             run_cases(ctx, impl, cases[i:i + 400])
+        # 3. kernels regenerated from the source (translator validation; the bridge to the models is proved in Lean)
+        from . import kernels
+
+        kernels.check(ctx, files={'utils/standard_atmosphere.py', 'emissions/ei/sox.py', 'emissions/utils.py',
+                                  'emissions/ei/nox.py', 'emissions/ei/hcco.py', 'emissions/ei/pmnvol.py'})
     finally:
         try:
             from AEIC.config import Config
